@@ -46,13 +46,22 @@ CIRC = 'photutils/aperture/circle.py'
 ELL = 'photutils/aperture/ellipse.py'
 RECT = 'photutils/aperture/rectangle.py'
 STATS = 'photutils/aperture/stats.py'
-FILES = [BBOX, CORE, RND, GRID, IMG, ISO, BKG, DCORE, PEAK, SEG, SUTIL, SDET, PPHOT, CIRC, ELL, RECT, STATS]
+CUT = 'photutils/utils/cutouts.py'
+DIMG = 'photutils/datasets/images.py'
+PROF = 'photutils/profiles/core.py'
+RPROF = 'photutils/profiles/radial_profile.py'
+DEBL = 'photutils/segmentation/deblend.py'
+CAT = 'photutils/segmentation/catalog.py'
+FILES = [BBOX, CORE, RND, GRID, IMG, ISO, BKG, DCORE, PEAK, SEG, SUTIL, SDET, PPHOT, CIRC, ELL, RECT, STATS,
+         CUT, DIMG, PROF, RPROF, DEBL, CAT]
 DEPENDS = {BBOX: ['C01_GenEq.v', 'C02_GenEq.v', 'C16_GenEq.v'], CORE: ['C01_GenEq.v', 'C01_Shape_GenEq.v'], RND: ['C17_GenEq.v'],
            GRID: ['C13_GenEq.v'], IMG: ['C13_GenEq.v'], ISO: ['C20_GenEq.v'], BKG: ['C11_GenEq.v'],
            DCORE: ['C14_GenEq.v'], PEAK: ['C14_GenEq.v'], SEG: ['C05_GenEq.v'], SUTIL: ['C04_GenEq.v'],
            SDET: ['C04_GenEq.v'], PPHOT: ['C12_GenEq.v'], CIRC: ['C01_Shape_GenEq.v'], ELL: ['C01_Shape_GenEq.v'],
-           RECT: ['C01_Shape_GenEq.v'], STATS: ['C16_GenEq.v']}
-ALL_EQ = ['C01_GenEq.v', 'C01_Shape_GenEq.v', 'C02_GenEq.v', 'C04_GenEq.v', 'C05_GenEq.v', 'C11_GenEq.v', 'C12_GenEq.v',
+           RECT: ['C01_Shape_GenEq.v'], STATS: ['C16_GenEq.v'], CUT: ['C18_GenEq.v'], DIMG: ['C18_GenEq.v'],
+           PROF: ['C19_GenEq.v'], RPROF: ['C19_GenEq.v'], DEBL: ['C06_GenEq.v'], CAT: ['C07_GenEq.v', 'C08_GenEq.v']}
+ALL_EQ = ['C01_GenEq.v', 'C01_Shape_GenEq.v', 'C02_GenEq.v', 'C04_GenEq.v', 'C05_GenEq.v', 'C06_GenEq.v', 'C07_GenEq.v',
+          'C08_GenEq.v', 'C11_GenEq.v', 'C12_GenEq.v', 'C18_GenEq.v', 'C19_GenEq.v',
           'C13_GenEq.v', 'C14_GenEq.v', 'C16_GenEq.v', 'C17_GenEq.v', 'C20_GenEq.v']
 
 # (name, kind, file, old, new, expectation)
@@ -184,6 +193,58 @@ mut('rectangle extents: max -> min', RECT, 'x_extent = max(x_extent1, x_extent2)
 # ---- C16 ----
 mut('centroid origin: maximum -> minimum', STATS, 'origin = np.transpose((np.maximum(self.bbox_xmin, 0),', 'origin = np.transpose((np.minimum(self.bbox_xmin, 0),')
 mut('centroid origin: y not clipped (reverts fix C16-1)', STATS, 'np.maximum(self.bbox_ymin, 0)))', 'self.bbox_ymin))')
+
+# ---- round 3: C18 ----
+mut('overlap patch: `== 0` -> `< 0` (zero-size slices pass)', CUT, 'if slc_lg[i].stop - slc_lg[i].start == 0:', 'if slc_lg[i].stop - slc_lg[i].start < 0:')
+mut('overlap patch: only axis 0 checked', CUT, '    for i in (0, 1):\n', '    for i in (0, 0):\n')
+mut('overlap patch: returns (slc_sm, slc_lg)', CUT, '    return slc_lg, slc_sm\n', '    return slc_sm, slc_lg\n')
+mut('mod_shape: bbox used although model_shape given (branches swapped)', DIMG, '        elif model_shape is None:', '        elif model_shape is not None:')
+mut('mod_shape: variable_shape ignored', DIMG, '        if variable_shape:\n            mod_shape = model_shape[i]', '        if False:\n            mod_shape = model_shape[i]')
+mut('shape_from_bbox: ceil -> floor', DIMG, 'return (int(np.ceil(bbox[0][1] - bbox[0][0])),', 'return (int(np.floor(bbox[0][1] - bbox[0][0])),')
+mut('shape_from_bbox: x extent from the y interval', DIMG, 'int(np.ceil(bbox[1][1] - bbox[1][0])))', 'int(np.ceil(bbox[0][1] - bbox[1][0])))')
+mut('discretize ranges: x_range from slc_lg[0]', DIMG, 'x_range = (slc_lg[1].start, slc_lg[1].stop)', 'x_range = (slc_lg[0].start, slc_lg[1].stop)')
+mut('discretize ranges: y_range stop + 1', DIMG, 'y_range = (slc_lg[0].start, slc_lg[0].stop)', 'y_range = (slc_lg[0].start, slc_lg[0].stop + 1)')
+# ---- C19 ----
+mut('normalize: `== 0` -> `<= 0`', PROF, 'if normalization == 0 or not np.isfinite(normalization):', 'if normalization <= 0 or not np.isfinite(normalization):')
+mut('normalize: normalization_value set instead of accumulated', PROF, 'self.normalization_value *= normalization', 'self.normalization_value = normalization')
+mut('normalize: profile_error multiplied', PROF, "self.__dict__['profile_error'] = self.profile_error / normalization", "self.__dict__['profile_error'] = self.profile_error * normalization")
+mut('unnormalize: normalization_value not reset', PROF, '* self.normalization_value)\n        self.normalization_value = 1.0\n',
+    '* self.normalization_value)\n        self.normalization_value = self.normalization_value\n')
+mut('unnormalize: profile divided', PROF, "self.__dict__['profile'] = self.profile * self.normalization_value", "self.__dict__['profile'] = self.profile / self.normalization_value")
+mut('zero radius: `<= 0.0` -> `< 0.0`', PROF, '            if radius <= 0.0:', '            if radius < 0.0:')
+mut('zero-radius photometry: area 1.0', PROF, '                area = 0.0\n', '                area = 1.0\n')
+mut('zero-radius photometry: `is None` -> `is not None`', PROF, '            if aperture is None:\n                flux, fluxerr', '            if aperture is not None:\n                flux, fluxerr')
+mut('radial profile: area / flux', RPROF, '            return self._flux / self.area', '            return self.area / self._flux')
+mut('radial profile_error: not divided by area', RPROF, '            return self._fluxerr / self.area', '            return self._fluxerr * 1.0')
+# ---- C06 ----
+mut('deblend: `nlevels < 1` -> `<= 1`', DEBL, '    if nlevels < 1:', '    if nlevels <= 1:')
+mut('deblend: `contrast > 1` -> `>= 1`', DEBL, '    if contrast < 0 or contrast > 1:', '    if contrast < 0 or contrast >= 1:')
+mut('deblend: `contrast == 1` -> `== 0`', DEBL, '    if contrast == 1:  # no deblending', '    if contrast == 0:  # no deblending')
+mut('deblend: mode list loses sinh', DEBL, "    if mode not in ('exponential', 'linear', 'sinh'):", "    if mode not in ('exponential', 'linear'):")
+mut('deblend: `>= npixels * 2` -> `> npixels * 2`', DEBL, '            >= (npixels * 2))', '            > (npixels * 2))')
+mut('deblend: `npixels * 2` -> `npixels`', DEBL, '            >= (npixels * 2))', '            >= (npixels * 1))')
+mut('deblend: serial max_label += len + 1', DEBL, '                max_label += len(new_labels)\n\n    else:', '                max_label += len(new_labels) + 1\n\n    else:')
+mut('deblend: parallel max_label not advanced by len', DEBL, '                max_label += len(new_labels)\n\n    if max_label >', '                max_label += 1\n\n    if max_label >')
+mut('deblend: overflow `>` -> `>=`', DEBL, '    if max_label > np.iinfo(segm_deblended.dtype).max:', '    if max_label >= np.iinfo(segm_deblended.dtype).max:')
+mut('relabel map: `len(labels) == 0` -> `== 1`', DEBL, '    if len(labels) == 0:', '    if len(labels) == 1:')
+mut('relabel map: consecutive test without `+ 1`', DEBL, 'and (labels[-1] - start_label + 1) == len(labels)):', 'and (labels[-1] - start_label) == len(labels)):')
+mut('deblend_source: single-marker test `== 1` -> `<= 2`', DEBL, '        if len(_get_labels(markers)) == 1:  # no deblending', '        if len(_get_labels(markers)) <= 2:  # no deblending')
+# ---- C08 ----
+mut('getitem: scalar catalogs not rejected', CAT, "        if self.isscalar:\n            raise TypeError(f'A scalar", "        if not self.isscalar:\n            raise TypeError(f'A scalar", fail=['C08_GenEq.v'])
+mut('getitem keys: `|` -> `&` (only keys that are both lazy and extra)', CAT, '& (set(self._lazyproperties) | set(self._extra_properties)))', '& (set(self._lazyproperties) & set(self._extra_properties)))', fail=['C08_GenEq.v'])
+mut('getitem keys: __dict__ membership dropped', CAT, 'keys = (set(self.__dict__.keys())\n                & (set(self._lazyproperties)', 'keys = (set(self._lazyproperties)\n                & (set(self._lazyproperties)', fail=['C08_GenEq.v'])
+mut('getitem value form: `and` -> `or`', CAT, "if newcls.isscalar and key.startswith('_'):", "if newcls.isscalar or key.startswith('_'):", fail=['C08_GenEq.v'])
+mut('getitem value form: ndarray branch gets the list form', CAT, '                        val = value[:, np.newaxis][index]', '                        val = [value[index]]', fail=['C08_GenEq.v'])
+# ---- C07 ----
+mut('cutout_centroid: x and y moments swapped', CAT, 'ycentroid = moments[:, 1, 0] / moments[:, 0, 0]', 'ycentroid = moments[:, 0, 1] / moments[:, 0, 0]', fail=['C07_GenEq.v'])
+mut('cutout_centroid: returns (y, x)', CAT, '        return np.transpose((xcentroid, ycentroid))', '        return np.transpose((ycentroid, xcentroid))', fail=['C07_GenEq.v'])
+mut('centroid: origin (ymin, xmin)', CAT, 'origin = np.transpose((self.bbox_xmin, self.bbox_ymin))\n        return self.cutout_centroid + origin',
+    'origin = np.transpose((self.bbox_ymin, self.bbox_xmin))\n        return self.cutout_centroid + origin', fail=['C07_GenEq.v'])
+mut('centroid: origin subtracted', CAT, '        return self.cutout_centroid + origin', '        return self.cutout_centroid - origin', fail=['C07_GenEq.v'])
+mut('minval_index: both coordinates use slc[0]', CAT, "re:out\\.append\\(\\(idx\\[0\\] \\+ slc\\[0\\]\\.start, idx\\[1\\] \\+ slc\\[1\\]\\.start\\)\\)",
+    'out.append((idx[0] + slc[0].start, idx[1] + slc[0].start))', fail=['C07_GenEq.v'])
+mut('covariance: delta = 1/10', CAT, '        delta = 1.0 / 12\n', '        delta = 1.0 / 10\n', fail=['C07_GenEq.v'])
+mut('covariance: delta2 = delta', CAT, '        delta2 = delta**2\n', '        delta2 = delta\n', fail=['C07_GenEq.v'])
 
 # ---------------- (c) harmless rewrites ----------------
 rew('overlap: disjuncts reordered', BBOX,
@@ -634,6 +695,29 @@ rew('rectangle extents: factors commuted', RECT, 'x_extent1 = abs((half_width * 
     'x_extent1 = abs((cos_theta * half_width) - (sin_theta * half_height))')
 rew('rectangle extents: max arguments swapped', RECT, 'x_extent = max(x_extent1, x_extent2)', 'x_extent = max(x_extent2, x_extent1)', 'closed')
 rew('centroid origin: `np.maximum(0, bbox_xmin)`', STATS, 'np.maximum(self.bbox_xmin, 0)', 'np.maximum(0, self.bbox_xmin)')
+
+
+# ---- round 3 rewrites ----
+rew('overlap patch: `stop == start`', CUT, 'if slc_lg[i].stop - slc_lg[i].start == 0:', 'if slc_lg[i].stop == slc_lg[i].start:')
+rew('mod_shape: if/else restructured', DIMG, '        elif model_shape is None:', '        elif None is model_shape:', 'closed')
+rew('shape_from_bbox: math.ceil', DIMG, 'return (int(np.ceil(bbox[0][1] - bbox[0][0])),', 'return (int(np.ceil(-bbox[0][0] + bbox[0][1])),')
+rew('normalize: `0 == normalization`', PROF, 'if normalization == 0 or not np.isfinite(normalization):', 'if not np.isfinite(normalization) or 0 == normalization:')
+rew('normalize: `*=` written out, factors commuted', PROF, 'self.normalization_value *= normalization', 'self.normalization_value = normalization * self.normalization_value')
+rew('unnormalize: factors commuted', PROF, "self.__dict__['profile'] = self.profile * self.normalization_value", "self.__dict__['profile'] = self.normalization_value * self.profile")
+rew('zero radius: `0.0 >= radius`', PROF, '            if radius <= 0.0:', '            if 0.0 >= radius:')
+rew('deblend: `1 > nlevels`', DEBL, '    if nlevels < 1:', '    if 1 > nlevels:')
+rew('deblend: contrast disjuncts swapped', DEBL, '    if contrast < 0 or contrast > 1:', '    if contrast > 1 or 0 > contrast:')
+rew('deblend: `2 * npixels`', DEBL, '            >= (npixels * 2))', '            >= (2 * npixels))')
+rew('deblend: `max_label = max_label + len(new_labels)` (serial loop)', DEBL, '                max_label += len(new_labels)\n\n    else:', '                max_label = len(new_labels) + max_label\n\n    else:')
+rew('relabel map: conjuncts swapped', DEBL, '    if (labels[0] == start_label\n            and (labels[-1] - start_label + 1) == len(labels)):',
+    '    if ((labels[-1] - start_label + 1) == len(labels)\n            and start_label == labels[0]):')
+rew('getitem keys: operands of & swapped', CAT, 'keys = (set(self.__dict__.keys())\n                & (set(self._lazyproperties) | set(self._extra_properties)))',
+    'keys = ((set(self._extra_properties) | set(self._lazyproperties))\n                & set(self.__dict__.keys()))')
+rew('getitem value form: nested ifs', CAT, "if newcls.isscalar and key.startswith('_'):", "if key.startswith('_') and newcls.isscalar:")
+rew('cutout_centroid: x computed first', CAT, '            ycentroid = moments[:, 1, 0] / moments[:, 0, 0]\n            xcentroid = moments[:, 0, 1] / moments[:, 0, 0]',
+    '            xcentroid = moments[:, 0, 1] / moments[:, 0, 0]\n            ycentroid = moments[:, 1, 0] / moments[:, 0, 0]')
+rew('centroid: `origin + cutout_centroid`', CAT, '        return self.cutout_centroid + origin', '        return origin + self.cutout_centroid')
+rew('covariance: delta2 = delta * delta', CAT, '        delta2 = delta**2\n', '        delta2 = delta * delta\n')
 
 
 def prepare_coq(d):
